@@ -22,44 +22,78 @@ const (
 type gzipResponseWriter struct {
 	http.ResponseWriter
 	statusCode   int
-	wroteHeader  bool
+	wroteHeader  bool // the handler has chosen a status (recorded, not yet sent)
+	committed    bool // the header has been sent to the underlying writer
 	minSize      int
 	level        int
 	contentTypes []string
 
 	buf            bytes.Buffer
-	bufferExceeded bool // Track if we exceeded max buffer size
+	bufferExceeded bool // Track if we gave up buffering and stream uncompressed
 }
 
+// WriteHeader records the status. The header is only sent once it is known whether the
+// body will be compressed: Content-Encoding and Content-Length cannot be changed after
+// the header has gone out.
 func (g *gzipResponseWriter) WriteHeader(code int) {
 	if g.wroteHeader {
+		return
+	}
+	// Informational (1xx) responses are sent right away and are not the final status
+	if code >= 100 && code <= 199 && code != http.StatusSwitchingProtocols {
+		g.ResponseWriter.WriteHeader(code)
 		return
 	}
 
 	g.statusCode = code
 	g.wroteHeader = true
-	g.ResponseWriter.WriteHeader(code)
+}
+
+// commit sends the recorded status (200 if none) to the underlying writer, once
+func (g *gzipResponseWriter) commit() {
+	if g.committed {
+		return
+	}
+	g.committed = true
+	if !g.wroteHeader {
+		g.statusCode = http.StatusOK
+		g.wroteHeader = true
+	}
+	g.ResponseWriter.WriteHeader(g.statusCode)
+}
+
+// streamUncompressed gives up buffering: the header and whatever was buffered so far go
+// out as they are, and later writes pass straight through
+func (g *gzipResponseWriter) streamUncompressed() {
+	if g.bufferExceeded {
+		return
+	}
+	g.bufferExceeded = true
+	g.commit()
+	if g.buf.Len() > 0 {
+		_, _ = g.ResponseWriter.Write(g.buf.Bytes())
+		g.buf.Reset()
+	}
 }
 
 func (g *gzipResponseWriter) Write(b []byte) (int, error) {
+	if g.bufferExceeded {
+		// Stream directly without compression
+		return g.ResponseWriter.Write(b)
+	}
 	// Check if adding this data would exceed max buffer size
 	if g.buf.Len()+len(b) > MaxCompressionBufferSize {
-		// Mark as exceeded and fall back to streaming uncompressed
-		if !g.bufferExceeded {
-			g.bufferExceeded = true
-			// Flush existing buffer uncompressed
-			if g.buf.Len() > 0 {
-				_, _ = g.ResponseWriter.Write(g.buf.Bytes())
-				g.buf.Reset()
-			}
-		}
-		// Stream directly without compression
+		// Fall back to streaming uncompressed
+		g.streamUncompressed()
 		return g.ResponseWriter.Write(b)
 	}
 	return g.buf.Write(b)
 }
 
+// Flush means the handler is streaming (server-sent events, long polls): the body cannot
+// be buffered until the end, so it is streamed uncompressed from here on
 func (g *gzipResponseWriter) Flush() {
+	g.streamUncompressed()
 	if f, ok := g.ResponseWriter.(http.Flusher); ok {
 		f.Flush()
 	}
@@ -72,58 +106,66 @@ func (g *gzipResponseWriter) Hijack() (net.Conn, *bufio.ReadWriter, error) {
 	return nil, nil, fmt.Errorf("underlying ResponseWriter does not support hijacking")
 }
 
-func (g *gzipResponseWriter) Finish() error {
-	if !g.wroteHeader {
-		g.WriteHeader(http.StatusOK)
+// shouldGzipBody decides, once the whole body is known, whether it is compressed
+func (g *gzipResponseWriter) shouldGzipBody(body []byte) bool {
+	// nothing to compress (HEAD, 204, 304, empty bodies)
+	if len(body) == 0 {
+		return false
 	}
 
-	// If buffer was exceeded, data was already streamed uncompressed
-	if g.bufferExceeded {
-		return nil
+	// the backend already encoded the body
+	if g.Header().Get("Content-Encoding") != "" {
+		return false
 	}
-
-	body := g.buf.Bytes()
 
 	clHeader := g.Header().Get("Content-Length")
 	if clHeader != "" {
 		cl, err := strconv.Atoi(clHeader)
 		// if Content-Length header found and is less than the minSize then return the body as is.
 		if err == nil && cl < g.minSize {
-			_, err := g.ResponseWriter.Write(body)
-			return err
+			return false
 		}
 	}
 
 	// acts as a fallback when Content-Length is not available.
 	if len(body) < g.minSize {
-		_, err := g.ResponseWriter.Write(body)
-		return err
+		return false
 	}
 
 	// return body as is when Content-Type doesn't match specified in Config
-	ct := g.Header().Get("Content-Type")
-	if !matchesContentType(ct, g.contentTypes) {
+	return matchesContentType(g.Header().Get("Content-Type"), g.contentTypes)
+}
+
+func (g *gzipResponseWriter) Finish() error {
+	// If we fell back to streaming, everything has been sent uncompressed already
+	if g.bufferExceeded {
+		return nil
+	}
+
+	body := g.buf.Bytes()
+
+	if !g.shouldGzipBody(body) {
+		g.commit()
+		if len(body) == 0 {
+			return nil
+		}
 		_, err := g.ResponseWriter.Write(body)
 		return err
 	}
 
+	// The headers must be final before the status line is sent
 	g.Header().Set("Content-Encoding", "gzip")
 	// Remove Content-Length since compressed size differs from original
 	g.Header().Del("Content-Length")
+	g.commit()
 
 	gz, err := gzip.NewWriterLevel(g.ResponseWriter, g.level)
 	if err != nil {
 		return err
 	}
-	defer func() {
-		if err := gz.Close(); err != nil {
-			// Log the error but don't fail the request
-			_ = err // Explicitly ignore
-		}
-	}()
 
-	_, err = gz.Write(body)
-	if err != nil {
+	if _, err = gz.Write(body); err != nil {
+		_ = gz.Close()
 		return err
 	}
 
